@@ -14,7 +14,7 @@ func init() {
 		Assume: []string{
 			"alphabet of the property: acgtryswkmbdhvn.-[] ('u' is only used for the comparison of the three tables); nucleotides are compared case-insensitively",
 			"sequences are well formed at the end of every step (qualities, when present, as long as the sequence): Clear() is followed by ClearQualities() when there are qualities, the append-style mutators add as many qualities as nucleotides; Join, which does not extend qualities, is only applied to receivers without qualities; empty sequences (cleared, preallocated) take part in every operation except Subsequence (no window of the domain)",
-			"circular windows: from<to means (x+x)[from:to] with to<=2n and length<=n; from>=to (from<n) means x[from:]+x[:to]",
+			"circular windows: positions are taken modulo n: from<to means (x+x+x)[from:to] with from<2n and length<=n (a window that starts in the second copy may end in the third); from>=to (from<n) means x[from:]+x[:to]",
 			"pairing_mismatches positions are 1-based (obialign.BuildQualityConsensus); the order of the two (symbol, score) items of a key and the case of the symbols are not constrained",
 			"not constrained: ids, source, feature table of a subsequence, whether ReverseComplement(true) modifies its receiver when it answers with a cached object",
 			"after Recycle() an object is never inspected again unless the real code itself returns it as the result of an operation on a live object",
